@@ -7,15 +7,19 @@ HARNESSES = []
 # H3: cue points and instrument/loop data, set -> real header writer -> real parser -> get (container round-trip harness + WITH_META)
 for h in _load("C04").rt_harnesses(only=["wav.pcm16"]):
     if ".ch1.n1.sr44100" in h.name or ".ch2.n1.sr44100" in h.name or ".ch1.n0.sr44100" in h.name:
-      for mbit, mname in ((1, "cues"), (2, "inst")):
+      for mbit, mname in ((1, "cues"), (2, "inst"), (4, "str")):
         g = copy.copy(h)
         g.name = h.name.replace("rt.", "meta.%s." % mname)
+        if mbit == 4 and ".ch1.n1." not in h.name:
+            continue
         g.defines = dict(h.defines); g.defines["WITH_META"] = mbit; g.defines["MF_CAP"] = 512; g.defines["MF_MAXIO"] = 512
-        g.unwindset = tuple(x for x in h.unwindset if not x.startswith(("psf_fread.0", "psf_fwrite.0", "psf_binheader_writef.0"))) + ("psf_fread.0:513", "psf_fwrite.0:513", "psf_binheader_writef.0:514", "main.0:14", "main.1:14", "main.2:14", "main.3:14")
+        g.unwindset = tuple(x for x in h.unwindset if not x.startswith(("psf_fread.0", "psf_fwrite.0", "psf_binheader_writef.0"))) + ("psf_fread.0:513", "psf_fwrite.0:513", "psf_binheader_writef.0:514", "main.0:14", "main.1:14", "main.2:14", "main.3:14", "main.4:14", "main.5:14", "main.6:14", "strlen.0:70", "strcmp.0:70", "psf_store_string.0:40", "psf_store_string.1:40", "psf_get_string.0:40", "psf_location_string_count.0:34", "wavlike_write_strings.0:34", "psf_set_string.0:40")
         g.fsa = 600
         # value round trip only: CBMC's typed pointer check rejects every access to the variable-size SF_CUES
         # allocation (see vf.CUES_ARTEFACT) and would cut the paths behind it; memory safety of these routines is C03/C17
         g.checks = "assert"
+        if mbit == 4:
+            g.tiers = ("thorough",) ; g.timeout = 3000     # string table loops (32 entries) x LIST parser: > 5 min under load
         g.timeout = 600
         g.functions = tuple(h.functions) + ("sf_command(SFC_SET_CUE/SFC_SET_INSTRUMENT)", "psf_cues_dup", "wav_write_header cue/smpl blocks", "wav_read_header cue block", "wav_read_smpl_chunk")
         g.bounds = "2 cue points and 1 loop with symbolic field values, " + h.bounds
